@@ -13,12 +13,12 @@ open Imeta
 def W : Nat := 1538
 
 inductive XErr where
-  | noXMP | eof | bufferFull | negativeRead | recovered | fuel
+  | noXMP | eof | bufferFull | negativeRead | recovered | unexpectedEOF | fuel
   deriving DecidableEq, Repr
 
 def XErr.name : XErr → String
   | .noXMP => "NoXMP" | .eof => "EOF" | .bufferFull => "BufferFull" | .negativeRead => "NegativeRead"
-  | .recovered => "Recovered" | .fuel => "fuel"
+  | .recovered => "Recovered" | .unexpectedEOF => "UnexpectedEOF" | .fuel => "fuel"
 
 abbrev Prop2 := Nat × Nat   -- (namespace, name)
 
@@ -74,6 +74,11 @@ def peek (n : Nat) : M Bytes := fun st =>
   else if st.rest.length < n then
     (if st.rest.length > 4 then (.ok st.rest, st) else (.error .eof, st))
   else (.ok (st.rest.take n), st)
+
+/-- the raw bufio Peek of readTagHeader's second look (n ≤ the buffer size): everything there is up to n bytes, no error;
+the earlier slice `old` is kept only when it already has n bytes -/
+def peekWide (n : Nat) (old : Bytes) : M Bytes := fun st =>
+  (.ok (if n > old.length then st.rest.take n else old), st)
 
 def discard (n : Nat) : M Unit := fun st => (.ok (), { st with rest := st.rest.drop n })
 def setA (b : Bool) : M Unit := fun st => (.ok (), { st with a := b })
@@ -166,6 +171,10 @@ def findTagStart : Nat → Nat → Nat → M (TagT × Bytes × Nat)
     let buf ← peek sz
     let k := idxFrom (fun x => x == 60) buf i
     if k < buf.length then
+      -- (repaired) the tag name may lie beyond this window: look ahead from the '<' on, as far as the buffer allows
+      let buf ← (if buf.length - k < 128 then peekWide (min (k + 128) W) buf else pure buf)
+      if k + 1 ≥ buf.length then fail .unexpectedEOF
+      else
       let n1 ← at? buf (k + 1)
       if n1 == 47 then pure (.stop, buf.drop (k + 2), k + 2)
       else if n1 == 63 then fail .eof
@@ -204,8 +213,9 @@ def readTagValue : Nat → Nat → Nat → Nat → M Bytes
   | f+1, sz, i, j => do
     let buf ← peek sz
     -- (repaired) no '>' or "/>" is skipped here: the tag header or its last attribute has consumed it
-    let ij : Nat × Nat := if i == 0 then
-        let i2 := idxFrom (fun b => !isWs b) buf 0
+    -- (repaired) leading white space is skipped across windows: `i == j` exactly while nothing but white space was seen
+    let ij : Nat × Nat := if i == j then
+        let i2 := idxFrom (fun b => !isWs b) buf i
         (i2, i2)
       else (i, j)
     let k := idxFrom (fun x => x == 60) buf ij.2
